@@ -276,6 +276,7 @@ pub fn migrate(clock: Arc<uhlc::HLC>, conn: &mut Connection) -> rusqlite::Result
     let migrations: Vec<Box<dyn Migration>> = vec![
         Box::new(init_migration as fn(&Transaction) -> rusqlite::Result<()>),
         Box::new(crsqlite_v0_17_migration(clock)),
+        Box::new(buffered_changes_key_migration as fn(&Transaction) -> rusqlite::Result<()>),
     ];
 
     crate::sqlite::migrate(conn, migrations)
@@ -364,6 +365,38 @@ fn init_migration(tx: &Transaction) -> rusqlite::Result<()> {
     )?;
 
     Ok(())
+}
+
+// A relay can serve two changes of one version under the same sequence number (merging a column
+// with a higher causal length records the row's sentinel under the sequence of that column change).
+// Keyed by (site_id, db_version, seq) alone the buffer kept only the first of the two.
+fn buffered_changes_key_migration(tx: &Transaction) -> rusqlite::Result<()> {
+    tx.execute_batch(
+        r#"
+            CREATE TABLE __corro_buffered_changes_v2 (
+                "table" TEXT NOT NULL,
+                pk BLOB NOT NULL,
+                cid TEXT NOT NULL,
+                val ANY,
+                col_version INTEGER NOT NULL,
+                db_version INTEGER NOT NULL,
+                site_id BLOB NOT NULL,
+                seq INTEGER NOT NULL,
+                cl INTEGER NOT NULL,
+                ts TEXT NOT NULL,
+
+                PRIMARY KEY (site_id, db_version, seq, "table", pk, cid)
+            ) WITHOUT ROWID;
+
+            INSERT INTO __corro_buffered_changes_v2
+                ("table", pk, cid, val, col_version, db_version, site_id, seq, cl, ts)
+                SELECT "table", pk, cid, val, col_version, db_version, site_id, seq, cl, ts
+                    FROM __corro_buffered_changes;
+
+            DROP TABLE __corro_buffered_changes;
+            ALTER TABLE __corro_buffered_changes_v2 RENAME TO __corro_buffered_changes;
+        "#,
+    )
 }
 
 // since crsqlite 0.17, ts is now stored as TEXT in clock tables
